@@ -1005,7 +1005,32 @@ struct Engine {
 
     // ---- policy state ------------------------------------------------------
 
-    static void install_handler() {
+    static constexpr bool has_legacy_route =
+        std::is_base_of_v<policy::backward_compatible_error_handler<P>, P>;
+
+    // legacy = true: resolution errors are observed through the deprecated
+    // call_error handler (the route set_method_call_error_handler installs),
+    // reached from the policy's default error handler
+    static void install_handler(bool legacy = false) {
+        if constexpr (has_legacy_route) {
+            if (legacy) {
+                P::error = policy::backward_compatible_error_handler<
+                    P>::default_error_handler;
+                P::call_error = [](const method_call_error& e,
+                                   std::size_t arity, type_id* ids) {
+                    ++g_deliveries;
+                    ErrorSeen s;
+                    s.kind = ErrorSeen::resolution;
+                    s.status = e.code;
+                    s.arity = arity;
+                    for (std::size_t i = 0; i < 4 && i < arity; ++i) {
+                        s.types[i] = ids[i];
+                    }
+                    throw Thrown{s};
+                };
+                return;
+            }
+        }
         P::error = [](const error_type& ev) {
             ++g_deliveries;
             throw Thrown{to_seen(ev)};
